@@ -75,6 +75,9 @@ func modes() []mode {
 	for _, st := range []int{1, 99} {
 		ms = append(ms, mode{name: fmt.Sprintf("unrelayable-status-%03d", st), status: st})
 	}
+	// the backend began a 200 answer and died: at once after the header block, or in the middle of the body. Nothing
+	// complete was produced; whatever the client is given, it must not look like a completed answer
+	ms = append(ms, mode{name: "answer-begun-then-dies@0"}, mode{name: "answer-begun-then-dies@mid"})
 	ms = append(ms, mode{name: "malformed-json-200"})
 	// every endpoint has refused six requests in a row and is still listed healthy: the olla engine's per-endpoint
 	// breakers are open and every candidate is skipped without being contacted - that, too, is a failure to report
@@ -317,6 +320,20 @@ func runConfig(engine string, rt route, k int, rg routing) {
 					}
 					b.SetFixed(stack.Behaviour{Kind: "respond", Status: 200, Framing: "cl", Body: []byte(body), Cut: -1, After: "complete", Headers: [][2]string{{"Content-Type", ct}}})
 				}
+			case "answer-begun-then-dies@0", "answer-begun-then-dies@mid":
+				body, ct, framing := `{"id":"x","object":"chat.completion","model":"m1","choices":[{"index":0,"message":{"role":"assistant","content":"a long answer that is never finished because the backend goes away"},"finish_reason":"stop"}]}`, "application/json", "cl"
+				if stream {
+					body = "data: {\"id\":\"x\",\"object\":\"chat.completion.chunk\",\"model\":\"m1\",\"choices\":[{\"index\":0,\"delta\":{\"role\":\"assistant\",\"content\":\"the first words\"}}]}\n\n" +
+						"data: {\"id\":\"x\",\"object\":\"chat.completion.chunk\",\"model\":\"m1\",\"choices\":[{\"index\":0,\"delta\":{\"content\":\" and more words that never arrive\"}}]}\n\n"
+					ct, framing = "text/event-stream", "chunked"
+				}
+				cut, after := 0, "close"
+				if strings.HasSuffix(m.name, "@mid") {
+					cut, after = len(body)*2/3, "rst"
+				}
+				for _, b := range bes {
+					b.SetFixed(stack.Behaviour{Kind: "respond", Status: 200, Framing: framing, Body: []byte(body), Cut: cut, After: after, DelayBeforeAfter: 80 * time.Millisecond, Headers: [][2]string{{"Content-Type", ct}}})
+				}
 			default:
 				if strings.HasPrefix(m.name, "unrelayable-status-") {
 					for _, b := range bes {
@@ -371,6 +388,31 @@ func judge(engine string, rt route, k int, m mode, stream bool, r *stack.Resp, d
 				return
 			}
 		}
+	}
+	if strings.HasPrefix(m.name, "answer-begun-then-dies") {
+		// the status may already have been relayed when the backend died; what matters is that the client can tell:
+		// a non-2xx, a response that ends abnormally, or (Anthropic stream) an error event - not a clean, complete answer
+		told := r.Status < 200 || r.Status >= 300 || r.BodyErr != "" || bytes.Contains(r.Body, []byte("event: error"))
+		if !rt.translated {
+			// on the routes that relay, the backend's status line is with the client by the time the backend dies and
+			// olla authors nothing of the response: what the client can still be told is the subject of C02 and C18,
+			// not of this statement. Explored (no hang, no crash, no 2xx with a fabricated body), not asserted
+			res.Add("explored_not_asserted", 1)
+			if !told {
+				res.Add("relayed_truncated_answer_ends_cleanly", 1)
+			}
+			return
+		}
+		if strings.HasSuffix(m.name, "@0") && r.Status >= 200 && r.Status < 300 && stream {
+			// not one byte of an answer existed when olla chose the client's status: nothing was produced, a 2xx is a
+			// fabricated (empty) answer whatever the stream then says
+			res.Violate("fabricated-empty-stream", wit(map[string]any{"stream": stream, "engine": engine}), det+"\nthe backend sent a 200 header block and nothing else, then closed", rp)
+			return
+		}
+		if !told {
+			res.Violate("dead-backend-answer-presented-as-complete", wit(map[string]any{"stream": stream}), det+"\nthe backend sent a 200 header block and died ("+m.name+"); the client received a 2xx response that ends cleanly", rp)
+		}
+		return
 	}
 	if r.Status >= 200 && r.Status < 300 {
 		cl := "success-status-on-failure"
